@@ -566,6 +566,15 @@ def nsp_errnos():
     return {"ESRCH"}
 
 
+def consume(val):
+    """Some layers hand back a generator (Windows memory_maps()): the native
+    call - and its failure - happens when the front end iterates it."""
+    import types
+    if isinstance(val, types.GeneratorType):
+        return list(val)
+    return val
+
+
 def run_child_case(case):
     import socket
 
@@ -609,7 +618,7 @@ def run_child_case(case):
             plat.pid_exists = lambda p_: PLAN.pid_exists
         try:
             try:
-                val = getattr(proc, m)(*ARGS.get(m, ()))
+                val = consume(getattr(proc, m)(*ARGS.get(m, ())))
                 out = ("value", val)
             except BaseException as e:  # noqa: BLE001
                 out = ("exc", e)
@@ -722,7 +731,7 @@ def run_child_case(case):
             plat.pid_exists = lambda p_: PLAN.pid_exists
         try:
             try:
-                val = getattr(proc, m)(*ARGS.get(m, ()))
+                val = consume(getattr(proc, m)(*ARGS.get(m, ())))
                 out = ("value", val)
             except BaseException as e:  # noqa: BLE001
                 out = ("exc", e)
